@@ -345,7 +345,7 @@ impl PartialEq for TKey {
         ctx::callback(Site::Eq);
         self.check("eq(lhs)");
         other.check("eq(rhs)");
-        self.kv == other.kv
+        ctx::chaos_eq(self.kv == other.kv)
     }
 }
 impl Eq for TKey {}
